@@ -115,6 +115,12 @@ def _limits(mem_gb):
         b = int(mem_gb * (1 << 30))
         resource.setrlimit(resource.RLIMIT_AS, (b, b))
         os.setsid()
+        try:
+            # die with the driver (a driver killed by `timeout` used to leave its cbmc behind, holding the job lock)
+            import ctypes
+            ctypes.CDLL("libc.so.6", use_errno=True).prctl(1, 9, 0, 0, 0)   # PR_SET_PDEATHSIG, SIGKILL
+        except Exception:
+            pass
     return f
 
 
